@@ -1560,6 +1560,40 @@ theorem C03_integer_element_with_trailing_garbage_detected {F} (env : Env F) (hc
                            v := .atom (.int (Grammar.denoteInteger tok)) } .warning :=
   ElemRdS.integer_tok_junk env hcfg hagg tok htok hlo hhi j0 js hj0s hj047 hj0d hj hsemi before hb
 
+/-- **a real with something behind it as an element of an aggregate of REAL** (re-export of `ElemRdS.real_tok_junk`;
+    `( 1.5X )`, `( 2.0'a' )`): the real is stored, the rest - no digit, `E`, `e`, blank or `/` first, no `,` `)` `;` - is
+    reported: WARNING, the loop goes on behind it -/
+theorem C03_real_element_with_trailing_garbage_detected {F} (env : Env F) (hcfg : env.lex.criSkipsComments = true)
+    (hagg : env.cfg.aggrSkipsComments = true) (tok : List Byte) (dec : Decimal) (v : F) (htok : Grammar.isReal tok = true)
+    (hden : Grammar.denoteReal tok = some dec) (hv : env.ops.ofDecimal dec = some v) (hnn : env.ops.isRealNull v = false)
+    (hbuf : env.lex.realBuf = 0 ∨ tok.length < env.lex.realBuf)
+    (j0 : Byte) (js : List Byte) (hj0s : isSpace j0 = false) (hj047 : j0 ≠ 47) (hj0d : isDigit j0 = false)
+    (hj0e : j0 ≠ 101) (hj0E : j0 ≠ 69)
+    (hj : ∀ b ∈ j0 :: js, delimAt env.lex attrDelims b = false)
+    (hsemi : env.lex.criStopsAtSemicolon = true → ∀ b ∈ j0 :: js, b ≠ 59) (before : List Byte) (hb : Seps before) :
+    ElemRdS env .real { tok := tok ++ j0 :: js, before := before, after := [], v := .atom (.real v) } .warning :=
+  ElemRdS.real_tok_junk env hcfg hagg tok dec v htok hden hv hnn hbuf j0 js hj0s hj047 hj0d hj0e hj0E hj hsemi before hb
+
+/-- **wrong-kind element of an aggregate of REAL** (re-export of `ElemRdS.real_junk`): a text that starts like no real
+    numeral (`RLemmas.notNum`: no digit, sign, `.`, `E`, `e` first) and holds no `,` `)` `;` where an element must stand:
+    unset, WARNING, the loop goes on behind it -/
+theorem C03_wrong_kind_real_element_detected {F} (env : Env F) (hcfg : env.lex.criSkipsComments = true)
+    (hagg : env.cfg.aggrSkipsComments = true) (j0 : Byte) (js : List Byte) (hj0s : isSpace j0 = false) (hj047 : j0 ≠ 47)
+    (hj092 : j0 ≠ 92) (hnn : notNum j0)
+    (hj : ∀ b ∈ j0 :: js, delimAt env.lex attrDelims b = false)
+    (hsemi : env.lex.criStopsAtSemicolon = true → ∀ b ∈ j0 :: js, b ≠ 59) (before : List Byte) (hb : Seps before) :
+    ElemRdS env .real { tok := j0 :: js, before := before, after := [], v := .atom .unset } .warning :=
+  ElemRdS.real_junk env hcfg hagg j0 js hj0s hj047 hj092 hnn hj hsemi before hb
+
+/-- **wrong-kind element of an aggregate of STRING** (re-export of `ElemRdS.string_junk`): a text that does not start with
+    an apostrophe and holds no `,` `)` `;` where an element must stand: unset, WARNING, the loop goes on behind it -/
+theorem C03_wrong_kind_string_element_detected {F} (env : Env F) (hagg : env.cfg.aggrSkipsComments = true)
+    (j0 : Byte) (js : List Byte) (hj0s : isSpace j0 = false) (hj047 : j0 ≠ 47) (hj092 : j0 ≠ 92) (hj039 : j0 ≠ 39)
+    (hj : ∀ b ∈ j0 :: js, delimAt env.lex attrDelims b = false)
+    (hsemi : env.lex.criStopsAtSemicolon = true → ∀ b ∈ j0 :: js, b ≠ 59) (before : List Byte) (hb : Seps before) :
+    ElemRdS env .string { tok := j0 :: js, before := before, after := [], v := .atom .unset } .warning :=
+  ElemRdS.string_junk env hagg j0 js hj0s hj047 hj092 hj039 hj hsemi before hb
+
 /-- **undeclared item in an aggregate of ENUMERATION / BOOLEAN / LOGICAL** (re-export of `ElemRdS.enum_undeclared`) -/
 theorem C03_undeclared_enum_element_detected {F} (env : Env F) (hcfg : env.lex.criSkipsComments = true)
     (hagg : env.cfg.aggrSkipsComments = true) (ty : ElemTy) (het : EnumTy ty) (name : List Byte) (hne : name ≠ [])
@@ -1825,6 +1859,18 @@ theorem C03_wrong_kind_in_integer_select_member_detected {F} (env : Env F) (m : 
     (hsemi : env.lex.criStopsAtSemicolon = true → ∀ b ∈ j0 :: js, b ≠ 59) :
     LeafRdS env m (j0 :: js) .unset .warning :=
   LeafRdS.integer_junk env m hm j0 js hj0s hj047 hj0d hj043 hj045 hj hsemi
+
+/-- the value of an INTEGER member that starts like an integer but has something behind it (`CNT_T(5X)`, `CNT_T(1.5)`;
+    re-export of `LeafRdS.integer_tok_junk`): the integer is stored, WARNING - with
+    `C03_violation_inside_typed_select_detected` and `C03_violation_confined_partial` up to the file verdict -/
+theorem C03_integer_select_member_with_trailing_garbage_detected {F} (env : Env F) (m : SelMember) (hm : m.ty = .integer)
+    (tok : List Byte) (htok : Grammar.isInteger tok = true) (hlo : IStream.longMin ≤ Grammar.denoteInteger tok)
+    (hhi : Grammar.denoteInteger tok < IStream.longMax)
+    (j0 : Byte) (js : List Byte) (hj0s : isSpace j0 = false) (hj047 : j0 ≠ 47) (hj0d : isDigit j0 = false)
+    (hj : ∀ b ∈ j0 :: js, delimAt env.lex attrDelims b = false)
+    (hsemi : env.lex.criStopsAtSemicolon = true → ∀ b ∈ j0 :: js, b ≠ 59) :
+    LeafRdS env m (tok ++ j0 :: js) (.int (Grammar.denoteInteger tok)) .warning :=
+  LeafRdS.integer_tok_junk env m hm tok htok hlo hhi j0 js hj0s hj047 hj0d hj hsemi
 
 /-- tie: the source keeps what `CheckRemainingInput` reports behind a `$` (C09's repair is in) -/
 theorem C03_source_dollar_keeps_error : Generated.rwLexCfg.dollarKeepsError = true := by decide
